@@ -32,8 +32,10 @@ import (
 
 const deadline = 10 * time.Second
 
-func waitFor(cond func() bool) bool {
-	end := time.Now().Add(deadline)
+func waitFor(cond func() bool) bool { return waitForD(cond, deadline) }
+
+func waitForD(cond func() bool, d time.Duration) bool {
+	end := time.Now().Add(d)
 	for i := 0; ; i++ {
 		if cond() {
 			return true
@@ -230,9 +232,9 @@ func runScenario(rep *hx.Report, m *hx.Model, sc scenario) {
 		}
 		ok := false
 		if strings.Contains(when, "after Go #") {
-			ok = waitFor(cond) // the next step's comparison shows that nothing more happened
+			ok = waitForD(cond, deadline/3) // the next step's comparison shows that nothing more happened
 		} else {
-			ok = stable(cond)
+			ok = waitForD(cond, deadline/3) && stable(cond)
 		}
 		if !ok {
 			mismatch(fmt.Sprintf("%s: model concurrent=%d queue=%d started=%d (dispatcher %s)", when, t.c, t.q, t.started, t.d))
